@@ -34,6 +34,7 @@ def showMat (A : Mat) : String :=
   s!"mat {showTC A.tc} {A.nrows} {A.ncols} " ++ (if A.buf.isEmpty then "-" else ",".intercalate (A.buf.map showNum))
 def showErr : Err → String
   | .index => "IndexError" | .type => "TypeError" | .value => "ValueError" | .notImpl => "NotImplemented"
+  | .zeroDiv => "ZeroDivision" | .arith => "Arithmetic"
 
 def optInt (s : String) : Option (Option Int) := if s == "_" then some none else s.toInt?.map some
 
@@ -149,6 +150,85 @@ def stepLine (d : DS) (line : String) : DS × String :=
       | .ok A => (d.update p.1 A, showMat A)
       | .error e => (d, showErr e)
     | _, _, _ => (d, "bad-op")
+  | ["div", dst, a, b] => match parseOpd d a, parseOpd d b with
+    | some a, some b =>
+      match divop a b with
+      | .ok A => (d.bindNew dst A, showMat A)
+      | .error e => (d, showErr e)
+    | _, _ => (d, "bad-op")
+  | ["rem", dst, a, b] => match parseOpd d a, parseOpd d b with
+    | some a, some b =>
+      match remop a b with
+      | .ok A => (d.bindNew dst A, showMat A)
+      | .error e => (d, showErr e)
+    | _, _ => (d, "bad-op")
+  | ["idiv", name, b] => match d.get name, parseOpd d b with
+    | some p, some b =>
+      match idivop p.2 b with
+      | .ok A => (d.update p.1 A, showMat A)
+      | .error e => (d, showErr e)
+    | _, _ => (d, "bad-op")
+  | ["irem", name, b] => match d.get name, parseOpd d b with
+    | some p, some b =>
+      match iremop p.2 b with
+      | .ok A => (d.update p.1 A, showMat A)
+      | .error e => (d, showErr e)
+    | _, _ => (d, "bad-op")
+  | ["pow", dst, a, e] => match d.get a, e.toInt? with
+    | some p, some e =>
+      match powop p.2 e with
+      | .ok A => (d.bindNew dst A, showMat A)
+      | .error e => (d, showErr e)
+    | _, _ => (d, "bad-op")
+  | ["abs", dst, a] => match d.get a with
+    | some p => match absop p.2 with
+      | some A => (d.bindNew dst A, showMat A)
+      | none => (d, "inexact")
+    | none => (d, "bad-op")
+  | ["len", a] => match d.get a with
+    | some p => (d, toString p.2.lgt)
+    | none => (d, "bad-op")
+  | ["bool", a] => match d.get a with
+    | some p => (d, toString (nonzero p.2))
+    | none => (d, "bad-op")
+  | ["list", a] => match d.get a with
+    | some p => (d, s!"list {showTC p.2.tc} " ++ (if p.2.buf.isEmpty then "-" else ",".intercalate (p.2.buf.map showNum)))
+    | none => (d, "bad-op")
+  | ["bmax", a] => match d.get a with
+    | some p => (d, showRes (bextreme true p.2))
+    | none => (d, "bad-op")
+  | ["bmin", a] => match d.get a with
+    | some p => (d, showRes (bextreme false p.2))
+    | none => (d, "bad-op")
+  | ["bsum", a] => match d.get a with
+    | some p => (d, showRes (bsum p.2))
+    | none => (d, "bad-op")
+  | ["in", a, v] => match d.get a, parseNum v with
+    | some p, some v => (d, toString (contains p.2 v))
+    | _, _ => (d, "bad-op")
+  | ["elem", op, dst, a, b] =>
+    let op? : Option ElemOp := if op == "mul" then some .mul else if op == "div" then some .div else if op == "max" then some .max
+      else if op == "min" then some .min else none
+    match op?, parseOpd d a, parseOpd d b with
+    | some op, some a, some b =>
+      match elem op a b with
+      | .mat A => (d.bindNew dst A, showMat A)
+      | r => (d, showRes r)
+    | _, _, _ => (d, "bad-op")
+  | ["newcols", dst, tc, cols] =>
+    -- cols: columns separated by `|`, entries `id;num` separated by `,`; `-` for an empty column
+    let parseEnt := fun (t : String) => match (if t.startsWith "n" then (t.drop 1).toString else t).splitOn ";" with
+      | [i, v] => match i.toNat?, parseNum v with
+        | some i, some v => some (i, v)
+        | _, _ => none
+      | _ => none
+    let cs := (if cols == "_" then [] else cols.splitOn "|").mapM fun c => if c == "-" then some [] else (c.splitOn ",").mapM parseEnt
+    match cs with
+    | some cs =>
+      match fromCols (cs.map fun c => c.map (·.2)) (cs.flatten.map (·.1)) (parseTC tc) with
+      | .ok A => (d.bindNew dst A, showMat A)
+      | .error e => (d, showErr e)
+    | none => (d, "bad-op")
   | ["slice", n, a, b, c] =>
     match n.toNat?, optInt a, optInt b, optInt c with
     | some n, some a, some b, some c =>
